@@ -57,6 +57,31 @@ def drive_and_judge(ctx, scs, sweep=0, par=0, parvariants=3, variants="rotate"):
     return s, nlines
 
 
+# "Only an active revision creates objects or becomes their controller": whether the revision reconciler asks the establisher
+# to control is decided from spec.desiredState - Active, Inactive, or (revisions written before fix 5866e3a, under a Manual
+# activation policy) EMPTY. This check's own model knows two states; the module PkgLifecycle (check X07) runs the revision
+# reconciler in all three and judges what it asks of the establisher (added after the seeded change C16-m9 was missed).
+RIDER_FORMULAS = ["Rev.Establish.Control", "Rev.Inactive.WithRefs", "Rev.Order.Gate", "Settled.Rev.Health.UndefinedState"]
+
+
+def rider_lifecycle(ctx):
+    from checks import x07
+    sub = ctx.sub("pkglifecycle")
+    scs, st, tr = [], 0, 0
+    for sc in x07.regression():     # (the revisions without a desired state are in X07's regression scenarios fc-*)
+        scs.append(dict(sc, id=sc["id"].replace(x07.PID, PID + "-pl", 1), rider="pkglifecycle"))
+    for name, n in ([("quick_gate", 1000), ("quick_rev", 150)] if ctx.quick else [("quick_gate", 100000), ("thorough_rev", 6000), ("quick_rev", 3000)]):
+        mc = sub.model_check(x07.MODULE, "%s_%s.cfg" % (x07.MODULE, name), sub="mc_" + name, workers=4, timeout=1500)
+        scs += [{"id": "%s-pl-%s-%07d" % (PID, name, i), "hist": h, "rider": "pkglifecycle"} for i, h in sub.sample_lines(mc["emitted_file"], n, mc["emitted"])]
+        st += mc["states"]
+        tr += mc["transitions"]
+    res = x07.drive_and_judge(sub, scs, sweep=0, shards=4, counts=False)
+    for v in sub.violations:
+        if v["formula"] in RIDER_FORMULAS:
+            ctx.violations.append(v)
+    return dict(states=st, transitions=tr, runs=res[0].get("runs"), events=res[1], formulas=RIDER_FORMULAS)
+
+
 def run(ctx):
     quick = ctx.quick
     cfgs = ["MCEstablisher_quick.cfg", "MCEstablisher_quick3.cfg"] if quick else ["MCEstablisher_thorough.cfg", "MCEstablisher_mid.cfg"]
@@ -86,6 +111,7 @@ def run(ctx):
              "realised as error / conflict / crash-before; sweep = every real call index x 4 outcomes + a fault-free reconcile "
              "of both revisions; parallel = 4 establisher workers, call order and one optional fault drawn from a seed",
     ))
+    ctx.cov["lifecycle_rider"] = rider_lifecycle(ctx)
     ctx.assumptions += ["simapi models the API server rules listed in spec/KubeAPI.tla (dry-run, scripted Invalid, <=1 controller)",
                         "the driver adds controller-runtime client semantics simapi lacks: cancelled contexts fail calls, "
                         "Update restores the caller's TypeMeta and Create does not, cached typed reads carry TypeMeta",
@@ -98,5 +124,10 @@ def run(ctx):
 def replay(ctx, path):
     with open(path) as f:
         sc = json.load(f)
+    if sc.get("rider") == "pkglifecycle":
+        from checks import x07
+        x07.replay(ctx, path)
+        ctx.violations = [v for v in ctx.violations if v["formula"] in RIDER_FORMULAS]
+        return
     s, nlines = drive_and_judge(ctx, [sc])
     ctx.cov.update(dict(states=1, transitions=1, traces_validated_against_impl=s["runs"], samples=[sc], events=nlines))
